@@ -28,9 +28,10 @@ MANIFEST = {
             "the C functions of their own algorithm with same-role arguments), D2s (members that receive a sized "
             "container forward its bytes together with its own size()), D3 (every keying path defines the whole "
             "key and nonce; the zero-length set_key path never reads the caller's pointer; key copies have the "
-            "member's size) and D4 (the C++ units keep no mutable static state, so results do not depend on "
-            "object history); equality of run-time outputs follows from these and the C-level checks and is not "
-            "decided separately",
+            "member's size), D4 (no mutable static state in the C++ units) and D5 (the header-inline hash / XOF "
+            "classes, fresh and after reset(), return what the C sequence returns for all data values: witness IR "
+            "linked with the library IR in the mode engine); run-time equality for the out-of-line cipher classes "
+            "follows from D2/D3 and the C-level checks",
     "note": "trusted: asconfacts member enumeration (type-checked AST), the two compilers as the definition "
             "of 'compiles', irdump; the witness covers the members that exist in the headers on the run",
     "technique": "generated compile-pass/compile-fail witnesses from AST facts; provenance and must-define "
